@@ -241,6 +241,27 @@ def check_decode(tier, seed):
                 want = int(RT[L.UCLCHEM_TYPES[r.code]]) if r.code != "MA" else int(RT.GAS_TWOBODY)
                 if int(g.reaction_type) != want:
                     V(fmt, f"type: keyword {r.code} decoded {int(g.reaction_type)} expected {want}", line)
+    # marker filtering must not depend on other networks built in between (per-network pseudo-element lists)
+    fresh()
+    from naunet.network import Network
+    d = tempfile.mkdtemp(prefix="vf_inter_")
+    try:
+        u1, u2, k1 = os.path.join(d, "a.umist"), os.path.join(d, "b.umist"), os.path.join(d, "c.kida")
+        open(u1, "w").write('1:NN:C:CH:C2:H:::1:6.59e-11:0.00:0.0:10:300:L:C:"r"::\n')
+        open(u2, "w").write('2:CP:H:CRP:H+:e-:::1:5.98e-18:0.00:0.0:10:41000:L:C:"r"::\n3:PH:CH:PHOTON:C:H:::1:9.2e-10:0.00:1.7:10:41000:L:C:"r"::\n')
+        open(k1, "w").write("H          CR                     H+         e-                                            4.600e-01  0.000e+00  0.000e+00 2.00e+00 0.00e+00 logn  1     10    300  1  1 1  1\n")
+        try:
+            A = Network(filelist=u1, fileformats="umist", elements=["H", "C", "e"], pseudo_elements=["CRP", "PHOTON", "CRPHOT"])
+            B = Network(filelist=k1, fileformats="kida", elements=["H", "e"], pseudo_elements=["CR", "Photon"])
+            A.add_reaction_from_file(u2, "umist")
+            cases += 1
+            bad = [s.name for r in A.reaction_list for s in r.reactants + r.products if s.name in MARKERS or "CRP" in s.name or "PHOTON" in s.name]
+            if bad or [len(r.reactants) for r in A.reaction_list] != [2, 1, 1]:
+                V("umist", f"marker-became-species-after-other-network: reactants {[names(r.reactants) for r in A.reaction_list]}")
+        except Exception as e:
+            V("umist", f"marker-filter-history: {type(e).__name__}: {e}")
+    finally:
+        shutil.rmtree(d, ignore_errors=True)
     fresh()
     return cases, viol, samples
 
@@ -354,6 +375,30 @@ def check_roundtrip(tier, seed):
                 cur = back
         finally:
             shutil.rmtree(d, ignore_errors=True)
+    # export twice into the same directory after a revision: the exchange file must follow the network
+    fresh()
+    d = tempfile.mkdtemp(prefix="vf_exp_")
+    try:
+        import io, contextlib
+        from naunet.reactions.reaction import Reaction
+        from naunet.reactiontype import ReactionType as RT
+        net = Network([Reaction(["C", "H"], ["CH"], alpha=1.0, reaction_type=RT.GAS_TWOBODY, idxfromfile=1)])
+        with contextlib.redirect_stdout(io.StringIO()):
+            try:
+                net.export("proj", prefix=d, overwrite=True)
+                net.add_reaction(Reaction(["CH", "H"], ["C", "H2"], alpha=2.0, reaction_type=RT.GAS_TWOBODY, idxfromfile=2))
+                net.export("proj", prefix=d, overwrite=True)
+                ok = True
+            except Exception as e:
+                ok = False     # template/test rendering problems of export are outside this check
+        cases += 1
+        rf = os.path.join(d, "proj", "reactions.naunet")
+        if os.path.exists(rf):
+            nlines = len([l for l in open(rf) if l.strip()])
+            if nlines != len(net.reaction_list):
+                V(f"export-overwrite-stale: reactions.naunet holds {nlines} reactions after re-export, the network has {len(net.reaction_list)}")
+    finally:
+        shutil.rmtree(d, ignore_errors=True)
     fresh()
     return cases, viol
 
